@@ -158,6 +158,7 @@ func (o *Obligation) query(withModel bool, dropQuant bool) string {
 		}
 	}
 	noslice := os.Getenv("GOCV_NOSLICE") != ""
+	var goalRoots map[string]bool
 	for i, q := range lines {
 		if include[i] || noslice {
 			hasQ := !q.isDef && strings.Contains(q.text, "(forall ((")
@@ -167,6 +168,12 @@ func (o *Obligation) query(withModel bool, dropQuant bool) string {
 			}
 			// instantiate universally quantified hypotheses at the goal's skolem constants
 			if len(o.Skolems) > 0 && !q.isDef && strings.Contains(q.text, "(forall ((") {
+				if goalRoots == nil {
+					goalRoots = arrayRoots(goalLine, lines, defOf)
+				}
+				if !sharesRoot(arrayRoots(q.text, lines, defOf), goalRoots) {
+					continue // the hypothesis talks about arrays the goal does not mention
+				}
 				for _, inst := range instantiate(q.text, o.instTerms(goalLine+" "+q.text)) {
 					b.WriteString(inst)
 					b.WriteByte('\n')
@@ -233,6 +240,13 @@ func runSolver(ctx context.Context, sd solverDef, query string, timeoutS int) so
 
 var procSem = make(chan struct{}, 18)
 
+type attempt struct {
+	sd      solverDef
+	query   string
+	label   string
+	satOK   bool // a "sat" answer of this attempt is conclusive (the query was not weakened)
+}
+
 func solveOne(o *Obligation, timeoutS int) {
 	if o.Goal.IsTrue() || o.PC.IsFalse() {
 		if !o.Vacuity {
@@ -240,56 +254,56 @@ func solveOne(o *Obligation, timeoutS int) {
 			return
 		}
 	}
+	q := o.Query(false)
+	var atts []attempt
 	if len(o.Skolems) > 0 {
-		// stage 0: quantifier-free variant (hypotheses instantiated at the goal's skolems)
+		// quantifier-free variant: hypotheses instantiated at the goal's skolems, quantified originals dropped
 		qf := o.query(false, true)
-		if !strings.Contains(qf, "(forall ((") {
-			t0 := timeoutS
-			if t0 > 30 {
-				t0 = 30
-			}
-			procSem <- struct{}{}
-			r0 := runSolver(context.Background(), solvers[0], qf, t0)
-			<-procSem
-			if r0.status == "unsat" {
-				o.Status, o.Solver, o.Time, o.Output = r0.status, r0.solver+"(qf-instances)", r0.dur, r0.out
-				return
-			}
+		if !strings.Contains(qf, "(forall ((") && qf != q {
+			atts = append(atts, attempt{solvers[0], qf, "(qf-instances)", false}, attempt{solvers[2], qf, "(qf-instances)", false})
+		}
+	} else {
+		// stage 1: z3-new alone, short
+		short := 3
+		if timeoutS < short {
+			short = timeoutS
+		}
+		procSem <- struct{}{}
+		r := runSolver(context.Background(), solvers[0], q, short)
+		<-procSem
+		if r.status == "unsat" || r.status == "sat" {
+			o.Status, o.Solver, o.Time, o.Output = r.status, r.solver, r.dur, r.out
+			return
 		}
 	}
-	q := o.Query(false)
-	// stage 1: z3-new alone, short
-	short := 3
-	if timeoutS < short {
-		short = timeoutS
+	for _, sd := range solvers {
+		atts = append(atts, attempt{sd, q, "", true})
 	}
-	procSem <- struct{}{}
-	r := runSolver(context.Background(), solvers[0], q, short)
-	<-procSem
-	if r.status == "unsat" || r.status == "sat" {
-		o.Status, o.Solver, o.Time, o.Output = r.status, r.solver, r.dur, r.out
-		return
-	}
-	// stage 2: race all three
 	ctx, cancel := context.WithCancel(context.Background())
 	defer cancel()
-	ch := make(chan solveResult, len(solvers))
-	for _, sd := range solvers {
-		sd := sd
+	ch := make(chan solveResult, len(atts))
+	for _, a := range atts {
+		a := a
 		go func() {
 			procSem <- struct{}{}
 			defer func() { <-procSem }()
 			if ctx.Err() != nil {
-				ch <- solveResult{status: "cancelled", solver: sd.name}
+				ch <- solveResult{status: "cancelled", solver: a.sd.name}
 				return
 			}
-			ch <- runSolver(ctx, sd, q, timeoutS)
+			r := runSolver(ctx, a.sd, a.query, timeoutS)
+			r.solver += a.label
+			if r.status == "sat" && !a.satOK {
+				r.status = "unknown" // weakened query: a model proves nothing
+			}
+			ch <- r
 		}()
 	}
 	best := solveResult{status: "unknown"}
 	var outs []string
-	total := r.dur
-	for range solvers {
+	total := 0.0
+	t0 := time.Now()
+	for range atts {
 		x := <-ch
 		if x.status == "cancelled" {
 			continue
@@ -297,21 +311,17 @@ func solveOne(o *Obligation, timeoutS int) {
 		outs = append(outs, x.solver+": "+firstLine(x.out))
 		if x.status == "unsat" || x.status == "sat" {
 			best = x
-			total += x.dur
 			cancel()
 			break
 		}
 		if x.status == "timeout" && best.status == "unknown" {
 			best.status = "timeout"
 		}
-		if x.dur > best.dur {
-			best.dur = x.dur
-		}
 	}
+	total = time.Since(t0).Seconds()
 	if best.solver == "" {
 		best.solver = "none"
 		best.out = strings.Join(outs, "; ")
-		total += best.dur
 	}
 	o.Status, o.Solver, o.Time, o.Output = best.status, best.solver, total, best.out
 }
@@ -711,4 +721,70 @@ func (o *Obligation) instTerms(goalLine string) []Term {
 		}
 	}
 	return out
+}
+
+var selectRe = regexp.MustCompile(`\((?:select|store) ([^ ()]+)`)
+
+// arrayRoots returns the declared array constants that the arrays selected from in text are built from.
+func arrayRoots(text string, lines []qline, defOf map[string]int) map[string]bool {
+	roots := map[string]bool{}
+	seen := map[string]bool{}
+	var visit func(name string, depth int)
+	visit = func(name string, depth int) {
+		if seen[name] || depth > 200 {
+			return
+		}
+		seen[name] = true
+		i, ok := defOf[name]
+		if !ok {
+			return
+		}
+		l := lines[i].text
+		if strings.HasPrefix(l, "(declare-const ") {
+			if strings.Contains(l, "(Array ") {
+				roots[name] = true
+			}
+			return
+		}
+		if !strings.Contains(l, "(Array ") {
+			// a scalar definition: look for selects inside it
+			for _, m := range selectRe.FindAllStringSubmatch(l, -1) {
+				visit(m[1], depth+1)
+			}
+			for _, s := range lines[i].syms {
+				if j, ok := defOf[s]; ok && !strings.HasPrefix(lines[j].text, "(declare-const ") && strings.Contains(lines[j].text, "(select ") {
+					visit(s, depth+1)
+				}
+			}
+			return
+		}
+		for _, s := range lines[i].syms {
+			if j, ok := defOf[s]; ok && strings.Contains(lines[j].text, "(Array ") {
+				visit(s, depth+1)
+			}
+		}
+	}
+	for _, m := range selectRe.FindAllStringSubmatch(text, -1) {
+		visit(m[1], 0)
+	}
+	// selects hidden behind scalar definitions used in the text
+	var buf []string
+	for _, s := range symbolsOf(text, buf) {
+		if j, ok := defOf[s]; ok && strings.HasPrefix(lines[j].text, "(define-fun ") && strings.Contains(lines[j].text, "(select ") {
+			visit(s, 0)
+		}
+	}
+	return roots
+}
+
+func sharesRoot(a, b map[string]bool) bool {
+	if len(a) == 0 {
+		return true // no array involved: keep (scalar quantification)
+	}
+	for k := range a {
+		if b[k] {
+			return true
+		}
+	}
+	return false
 }
